@@ -1,6 +1,7 @@
 package mpb
 
 import "container/heap"
+import "github.com/vbauerster/mpb/v8/internal/verifhook"
 
 type heapManager chan heapRequest
 
@@ -45,6 +46,7 @@ func (m heapManager) run() {
 	var sync bool
 
 	for req := range m {
+		verifhook.Event(verifhook.HmReq, int(req.cmd), req.data, bHeap.Len(), sync, len)
 		switch req.cmd {
 		case h_push:
 			data := req.data.(pushData)
@@ -73,9 +75,11 @@ func (m heapManager) run() {
 			data := req.data.(iterData)
 		loop: // unordered iteration
 			for _, b := range bHeap {
+				verifhook.Event(verifhook.HmIter, b)
 				select {
 				case data.iter <- b:
 				case <-data.drop:
+					verifhook.Event(verifhook.HmIterDrop, b)
 					data.iterPop = nil
 					break loop
 				}
@@ -87,9 +91,11 @@ func (m heapManager) run() {
 		loop_pop: // ordered iteration
 			for bHeap.Len() != 0 {
 				bar := heap.Pop(&bHeap).(*Bar)
+				verifhook.Event(verifhook.HmPop, bar, bar.priority)
 				select {
 				case data.iterPop <- bar:
 				case <-data.drop:
+					verifhook.Event(verifhook.HmPopDrop, bar)
 					heap.Push(&bHeap, bar)
 					break loop_pop
 				}
@@ -168,10 +174,13 @@ func maxWidthDistributor(column []chan int, drop <-chan struct{}) {
 				maxWidth = w
 			}
 		case <-drop:
+			verifhook.Event(verifhook.DistDrop, column)
 			return
 		}
 	}
+	verifhook.Event(verifhook.DistCollected, column, maxWidth)
 	for _, ch := range column {
 		ch <- maxWidth
 	}
+	verifhook.Event(verifhook.DistDone, column)
 }
